@@ -16,14 +16,14 @@ from vf.semi import model
 
 ID = "C06"
 RULE = (
-    "case = (grammar, regime, rule rotation, a chain of two transformations); every single "
+    "case = (grammar, regime, rule rotation, four chains of two transformations); every single "
     "transformation with every option, unfold at every admissible (rule, position), and the drawn "
-    "chain are applied; inside(T(G),xs) is compared with inside(G,xs) for all strings up to length 3 "
+    "chains are applied; inside(T(G),xs) is compared with inside(G,xs) for all strings up to length 3 "
     "with the reference evaluator on both sides; non-trivial = some non-empty string has non-zero "
     "weight and at least one transformation changed the rule multiset; distinct = SHA-1 of the case"
 )
 ASSUMPTIONS = [
-    "reference: vf.cfgref.Inside on both sides (the transformed grammar is read as data: rules, S, V)",
+    "reference: vf.cfgref.Inside on both sides (the transformed grammar is read as data: rules, S, V); the library's own evaluator T(cfg)(xs) is a secondary observation on the chains and on three cheap transformations",
     "rename uses injective functions only",
     "QQ grammars have no nullable cycle, FREE grammars no cyclic derivation (generator repair); FLOAT-like regimes are convergent by construction, rtol 1e-8",
 ]
@@ -40,7 +40,7 @@ def strategy(draw, tier="quick"):
     return {
         "g": g,
         "perm": draw(st.sampled_from([0, 0, 2, "rev"])),
-        "chain": [draw(st.sampled_from(xform.SINGLE)), draw(st.sampled_from(xform.SINGLE))],
+        "chains": [[draw(st.sampled_from(xform.SINGLE)), draw(st.sampled_from(xform.SINGLE))] for _ in range(4)],
         "pick": draw(st.integers(0, 30)),
         "n": 3,
     }
@@ -57,6 +57,20 @@ def apply_named(ctx, cfg, name, pick, key):
             return None
         return ctx.call(key, xform.apply, cfg, name, sites[pick % len(sites)])
     return ctx.call(key, xform.apply, cfg, name)
+
+
+def lib_eval(ctx, M, key, new, strings, want, what):
+    """secondary observation, as the statement puts it (T(cfg)(xs)): the library's own evaluator on the
+    transformed grammar object; a failure here with a quiet reference evaluation points at the
+    evaluator's own normal-form pipeline on that kind of grammar (see C02)"""
+    if new is None or isinstance(new, LibRaised):
+        return
+    for xs in strings:
+        if len(xs) > 2:
+            continue
+        have = ctx.call(f"{key}.lib_eval", new, xs)
+        if not ctx.eq(f"{key}.lib_eval", M, have, want[xs], what=f"{what}: T(cfg)({xs})"):
+            return
 
 
 def compare(ctx, M, key, new, strings, want, what):
@@ -95,12 +109,15 @@ def check(case, ctx):
         if new is not None and not isinstance(new, LibRaised):
             changed = changed or rule_multiset(new) != base
         compare(ctx, M, name, new, strings, want, name)
+        if name in ("separate_terminals", "separate_start", "trim"):
+            lib_eval(ctx, M, name, new, strings, want, name)
 
-    t1, t2 = case["chain"]
-    mid = apply_named(ctx, cfg, t1, case.get("pick", 0), t1)
-    if mid is not None and not isinstance(mid, LibRaised):
-        new = apply_named(ctx, mid, t2, case.get("pick", 0) // 3, t2)
-        compare(ctx, M, f"chain:{t2}", new, strings, want, f"{t1} then {t2}")
-        ctx.cls("chain")
+    for t1, t2 in case.get("chains") or [case["chain"]]:
+        mid = apply_named(ctx, cfg, t1, case.get("pick", 0), t1)
+        if mid is not None and not isinstance(mid, LibRaised):
+            new = apply_named(ctx, mid, t2, case.get("pick", 0) // 3, t2)
+            compare(ctx, M, f"chain:{t2}", new, strings, want, f"{t1} then {t2}")
+            lib_eval(ctx, M, f"chain:{t2}", new, strings, want, f"{t1} then {t2}")
+            ctx.cls("chain")
 
     ctx.nontrivial = changed and any(len(xs) > 0 and not M.is_zero(want[xs]) for xs in strings)
